@@ -1,0 +1,16 @@
+//go:build verif
+
+package shrexsub
+
+import (
+	"context"
+
+	pubsub "github.com/libp2p/go-libp2p-pubsub"
+	"github.com/libp2p/go-libp2p/core/peer"
+)
+
+// VerifValidate exposes the unexported topic-validator entry point (decode + sanity checks of a
+// received notification) to the runtime monitors. Present only under build tag `verif`.
+func VerifValidate(ctx context.Context, v ValidatorFn, p peer.ID, msg *pubsub.Message) pubsub.ValidationResult {
+	return v.validate(ctx, p, msg)
+}
